@@ -28,6 +28,8 @@ RULE = ("api: every sequence of <=3 (quick) / <=4 (thorough) calls over a 13-cal
         "program (no Lean model, spec on the implementation's observations): the C06 program generator (tilings, right-nested and "
         "hoisted intersections, Fiber.intersection two-finger / leader-follower / filtered) x format U on any rank of any operand or "
         "of the output, unowned-fiber operands with their own rank attributes, int / float / bool values, same reuse variants; all "
+        "chunked (spec on observations): Z += A with A in chunks of increasing coordinates populated with start_pos fed from "
+        "getSavedPos() (first start_pos 0, or none), pre-populated outputs, depth 1-2, all cut points on a 4-coordinate small scope; all "
         "kernel kinds also compare output attributes (ids, shape, default, formats) and the operands left behind off vs on. non-trivial api case = a session with at least one "
         "counter or started trace; non-trivial kernel case = at least one loop body ran and a trace or counter moved")
 
@@ -676,6 +678,101 @@ def run_program(case):
     return case
 
 
+# ---------------------------------------------------------------------------------------
+# chunked accumulate: populate with the start_pos shortcut, fed from getSavedPos()
+# ---------------------------------------------------------------------------------------
+
+def _mk_chunked(rng, small=None):
+    depth = rng.choice([1, 1, 2])
+    n = rng.choice([4, 6, 8, 12])
+    names = ["M", "N"][:depth]
+    pool = (1, 2, -1, 3)
+    if small is not None:
+        depth, n, z, chunks = small
+        names = ["M"]
+    else:
+        # the output already holds elements (so that a chunk can insert below its maximum), sometimes an explicit zero
+        z = H.gen_tree(rng, depth, n, pool + (0,), 0, p_absent=rng.choice([0.3, 0.5, 0.8]), p_emptysub=0.05, p_alldefault=0.0)
+        if depth == 2:
+            z = [[c, [[c2, v] for c2, v in sub]] for c, sub in z]
+        a = H.gen_tree(rng, depth, n, pool, 0, p_absent=rng.choice([0.3, 0.5]), p_default=0.05, p_emptysub=0.0,
+                       p_alldefault=0.0)
+        k = rng.choice([1, 2, 3, 4])
+        cuts = sorted(rng.sample(range(1, n), min(k - 1, n - 1)))
+        bounds = [0] + cuts + [n]
+        chunks = [[e for e in a if lo <= e[0] < hi] for lo, hi in zip(bounds, bounds[1:])]
+    case = {"prop": PROP, "kind": "chunked", "style": "chunked", "depth": depth, "n": n, "z": z, "chunks": chunks,
+            "first_pos": rng.choice([0, 0, 0, None]), "zdecl": rng.random() < 0.8, "ranks": names,
+            "pfx": rng.choice(PFX), "fmtU": [], "nU": 0, "solo_u": [], "vals": "int", "tiled": 0, "bare": 0}
+    u = rng.random()
+    case["traces"] = ([] if u < 0.1 else [[v, "iter"] for v in names] if u < 0.25 else
+                      [[v, t] for v in names for t in TYPES] if u < 0.5 else
+                      [[v, t] for v in names for t in TYPES if rng.random() < 0.4])
+    case["hist"] = _hist(rng, case["pfx"], names) if rng.random() < 0.4 else []
+    return case
+
+
+def gen_chunked(rng, tier):
+    # small scope: every output over 4 coordinates x {absent, 1}, every source over 4 coordinates cut in two chunks at
+    # every boundary, with the write trace of the output on
+    fibs = list(H.all_leaf_fibers(4, [1]))
+    k = 0
+    for z in fibs:
+        for a in fibs:
+            for cut in ((1, 2, 3) if tier != "quick" else (2,)):
+                k += 1
+                c = _mk_chunked(rng, small=(1, 4, z, [[e for e in a if e[0] < cut], [e for e in a if e[0] >= cut]]))
+                c["first_pos"], c["zdecl"], c["hist"] = 0, True, []
+                c["traces"] = [["M", "populate_write_0"]] if k % 2 else [["M", t] for t in TYPES]
+                yield c
+    for _ in range(500 if tier == "quick" else 20000):
+        yield _mk_chunked(rng)
+
+
+class _ChunkRunner:
+    @staticmethod
+    def build_ops(case):
+        ft = H.ft()
+        d, n = case["depth"], case["n"]
+        return [ft.Tensor.fromFiber(rank_ids=case["ranks"], fiber=H.build_fiber(t, d, 0), shape=[n] * d)
+                for t in case["chunks"]]
+
+    @staticmethod
+    def new_z(case, pre=False):
+        ft = H.ft()
+        d, n = case["depth"], case["n"]
+        kw = {"shape": [n] * d} if (case["zdecl"] or pre) else {}
+        if case["z"] and not pre:
+            return ft.Tensor.fromFiber(rank_ids=case["ranks"], fiber=H.build_fiber(case["z"], d, 0), **kw)
+        return ft.Tensor(rank_ids=case["ranks"], **kw)
+
+    @staticmethod
+    def execute(case, ops, z, bodies):
+        z_m = z.getRoot()
+        pos = case["first_pos"]
+        chained = pos is not None       # without start_pos the saved position is not the operator's to keep: not read back
+        saved = []
+        if chained:
+            z._c15_positions = saved
+        for chunk in ops:
+            a_m = chunk.getRoot()
+            for _m, (z_ref, a_val) in z_m.__lshift__(a_m, start_pos=pos):
+                bodies["M"] = bodies.get("M", 0) + 1
+                if case["depth"] == 1:
+                    z_ref += a_val
+                else:
+                    for _n, (z_ref2, a_val2) in z_ref << a_val:
+                        bodies["N"] = bodies.get("N", 0) + 1
+                        z_ref2 += a_val2
+            if chained:
+                pos = z_m.getSavedPos()
+                saved.append(pos)
+
+
+def run_chunked(case):
+    return _run_measured(case, _ChunkRunner)
+
+
 def gen(seed, tier):
     rng = random.Random(seed)
     yield from gen_api(rng, tier)
@@ -683,6 +780,8 @@ def gen(seed, tier):
     yield from gen_kernel(rng, tier)
     rng = random.Random(seed + 2)
     yield from gen_program(rng, seed, tier)
+    rng = random.Random(seed + 3)
+    yield from gen_chunked(rng, tier)
 
 
 # ---------------------------------------------------------------------------------------
@@ -898,6 +997,8 @@ def _session(case, R, d, collect, with_pre):
                 R.execute(case, ops, z, bodies)
             obs["res"] = H.snapshot(z.getRoot())
             obs["attrs"] = _attrs(z)
+            if hasattr(z, "_c15_positions"):        # the saved positions the kernel read back (chunked accumulate)
+                obs["res"] = {"z": obs["res"], "saved_pos": list(z._c15_positions)}
             obs["ops_after"] = [H.snapshot(o.getRoot()) if hasattr(o, "getRoot") else H.snapshot(o[1]) for o in ops]
         except Exception as e:  # an abort is an observation
             name, line = _err_info(e)
@@ -996,6 +1097,8 @@ def run_api(case):
 def run(case):
     if case["kind"] == "api":
         return run_api(case)
+    if case["kind"] == "chunked":
+        return run_chunked(case)
     return run_program(case) if case["kind"] == "program" else run_kernel(case)
 
 
@@ -1005,7 +1108,7 @@ def nontrivial(case, verdict):
         return False
     if case["kind"] == "api":
         return "session" in t and bool(t & {"started", "history", "rejected", "never-started"})
-    if case["kind"] == "program":
+    if case["kind"] in ("program", "chunked"):
         return "effectual" in t
     return bool(t & {"mul", "add", "traced-iterated", "revisit"})
 
@@ -1039,7 +1142,7 @@ def _classes(why):
 
 
 def signature(case, verdict, failed):
-    kind = "kernel" if case["kind"] == "program" else case["kind"]      # programs are kernels: same finding classes
+    kind = "kernel" if case["kind"] in ("program", "chunked") else case["kind"]      # programs are kernels: same finding classes
     cls = _classes(verdict.get("why", "")) if "spec" in failed else []
     sides = sorted(f.split(":")[0] for f in failed if f != "spec")
     new = [c for c in cls if c not in DOCUMENTED] + sides
@@ -1091,6 +1194,18 @@ def shrink_candidates(case):
             c = dict(case)
             c.pop(key)
             yield c
+    if case["kind"] == "chunked":
+        for k in range(len(case["chunks"])):
+            for t2 in _tree_shrinks(case["chunks"][k]):
+                c = dict(case)
+                c["chunks"] = list(case["chunks"])
+                c["chunks"][k] = t2
+                yield c
+        for t2 in _tree_shrinks(case["z"]):
+            c = dict(case)
+            c["z"] = t2
+            yield c
+        return
     if case["kind"] == "program":
         for i in range(len(case["fmtU"])):
             c = dict(case)
